@@ -424,7 +424,7 @@ def check_C13(cx):
         cx.absorb(run_driver(cx.driver, "boot", cases, cx.wd, tag="regress"), cases)
     for name, consts in mcs[:2] if quick else mcs[:4]:
         init, adj = generic_graph(cx, "G" + name, "Bootstrap", consts)
-        paths, total, planned = edge_cover(init, adj, cx.rnd, max_paths=500 if quick else None)
+        paths, total, planned = edge_cover(init, adj, cx.rnd, max_paths=500 if quick else 40000)
         cases = [boot_case("%s-p%d" % (name, i), consts, schedule=[boot_move(l) for _, l, _ in p],
                            rand={"seed": cx.rnd.randrange(1 << 40), "policy": "uniform"}) for i, p in enumerate(paths)]
         rs = run_driver(cx.driver, "boot", cases, cx.wd, tag=name)
@@ -666,10 +666,13 @@ def check_C17(cx):
         rb = 16 if 0 < rv < 16 else rv
         sizes = sorted(set([0, 1] + [max(0, wv - 1), wv, wv + 1, 2 * wv + 1] + [max(1, rb - 1), rb, rb + 1]))
         frags = [max(1, rb - 1), 1, 2 * rb + 3, 1] if rv else [3, 1, 7]
-        consts = {"W": wv, "R": rv, "Sizes": set(sizes), "MaxOps": 2 if quick else 3, "Frags": frags}
+        # exhaustive: quick = 2 operations with vectors of up to 3 elements; thorough = 3 operations with vectors of up to 2
+        # (3 x 3 is 10^7-10^8 transitions per variant); the replayed graph is the 2-operation one, covered completely in thorough
+        consts = {"W": wv, "R": rv, "Sizes": set(sizes), "MaxOps": 2 if quick else 3, "Frags": frags, "MaxVecLen": 3 if quick else 2}
         name = "w%dr%d" % (wv, rv)
         gconsts = dict(consts)
-        gconsts["MaxOps"] = 2 if quick else 3
+        gconsts["MaxOps"] = 2
+        gconsts["MaxVecLen"] = 3
         res = generic_mc(cx, "MC" + name, "Wire", consts, inv, what="C17 invariants, W=%d R=%d, sequences of %d operations over sizes %s" % (wv, rv, consts["MaxOps"], sizes))
         init, adj = generic_graph(cx, "G" + name, "Wire", gconsts)
         paths, total, planned = edge_cover(init, adj, cx.rnd, max_paths=600 if quick else None)
@@ -683,6 +686,7 @@ def check_C17(cx):
         # longer random sequences with the real buffer sizes of this variant
         rc = dict(consts)
         rc["MaxOps"] = 12
+        rc["MaxVecLen"] = 3
         cases = [{"id": "%s-r%d" % (name, i), "w": wv, "r": rv, "frags": frags, "random": 12, "sizes": sizes, "seed": cx.rnd.randrange(1, 1 << 30)}
                  for i in range(40 if quick else 400)]
         rs = run_driver(cx.driver, "wire", cases, cx.wd, tag=name + "r")
@@ -695,7 +699,7 @@ def check_C17(cx):
     for wv, rv in [(4096, 4096), (2048, 0), (0, 1024)]:
         sizes = [0, 1, 100, 1023, 1024, 1025, 2047, 2048, 2049, 4095, 4096, 4097, 8193]
         frags = [1, 1500, 1, 4096, 7, 9000]
-        rc = {"W": wv, "R": rv, "Sizes": set(sizes), "MaxOps": 16, "Frags": frags}
+        rc = {"W": wv, "R": rv, "Sizes": set(sizes), "MaxOps": 16, "Frags": frags, "MaxVecLen": 3}
         cases = [{"id": "big%d-%d-r%d" % (wv, rv, i), "w": wv, "r": rv, "frags": frags, "random": 16, "sizes": sizes, "seed": cx.rnd.randrange(1, 1 << 30)}
                  for i in range(30 if quick else 300)]
         rs = run_driver(cx.driver, "wire", cases, cx.wd, tag="big")
